@@ -704,6 +704,8 @@ where
                         // Term :: Assertion :: \b
                         'b' => {
                             self.consume('b');
+                            // Assertions are not quantifiable.
+                            quantifier_allowed = false;
                             result.push(ir::Node::WordBoundary {
                                 invert: false,
                                 unicode_icase: self.flags.unicode && self.flags.icase,
@@ -712,6 +714,7 @@ where
                         // Term :: Assertion :: \B
                         'B' => {
                             self.consume('B');
+                            quantifier_allowed = false;
                             result.push(ir::Node::WordBoundary {
                                 invert: true,
                                 unicode_icase: self.flags.unicode && self.flags.icase,
